@@ -56,5 +56,8 @@ def run(seed=0, rounds=400):
         fl = float(rng.choice([numpy.nan, numpy.inf, -numpy.inf, 0., 1., -2.5]))
         g = float(rng.choice([numpy.nan, numpy.inf, 0., 3.]))
         check('ieee-comparisons', (not (fl > g) if numpy.isnan(fl) or numpy.isnan(g) else True) and ((max(fl, g) == g) == (g > fl) or numpy.isnan(max(fl, g)) or fl == g), fl, g)
+    from native import axioms_c14  # externals of the C14 extension contracts (mask rank function, math.fsum/sqrt, float ** 2)
+    for _ in range(rounds):
+        axioms_c14.run(check, rng, int(rng.randint(0, 7)))
     print('AXIOMS ' + json.dumps(dict(rounds=rounds, failures=fails[:5])))
     return not fails
